@@ -131,6 +131,9 @@ fn par_for<F: Fn(usize) + Sync>(n: usize, f: F) {
 /// frame table: (a) every ordered pair of 11-bit frames from the initial state (22 bits);
 /// (b) from every table state: clear(), then every 11-bit frame. `stride` samples the outer loop.
 pub fn frame(a: &Auto, stride: usize, rep: &Report) {
+    // long periodic bit streams (stuck line, alternating, every bit pattern up to period 11 in the
+    // thorough tier): 800 000 bits each is more than 65 536 frames
+    periodic(a, "frame", if stride == 1 { 11 } else { 6 }, if stride == 1 { 800_000 } else { 40_000 }, 2, rep);
     let bit = |w: usize, i: usize| (w >> i) & 1; // alphabet index 0 = bit 0, 1 = bit 1, 2 = clear
     par_for(2048, |w1| {
         if w1 % stride != 0 && stride > 1 && w1 % 257 != 3 {
@@ -165,8 +168,51 @@ pub fn frame(a: &Auto, stride: usize, rep: &Report) {
     });
 }
 
+/// long periodic input streams from the initial state (period <= max_period over the alphabet,
+/// `len` inputs each): hidden counters and accumulators that only overflow or wrap after
+/// hundreds or thousands of calls show up here, far beyond any breadth-first exploration.
+pub fn periodic(a: &Auto, comp: &str, max_period: usize, len: usize, alpha_limit: usize, rep: &Report) {
+    let n = a.alphabet.len().min(alpha_limit);
+    let mut patterns: Vec<Vec<usize>> = Vec::new();
+    for p in 1..=max_period {
+        let total = n.pow(p as u32);
+        for v in 0..total {
+            let mut x = v;
+            let mut pat = Vec::with_capacity(p);
+            for _ in 0..p {
+                pat.push(x % n);
+                x /= n;
+            }
+            patterns.push(pat);
+        }
+    }
+    par_for(patterns.len(), |pi| {
+        let pat = &patterns[pi];
+        let seq: Vec<usize> = (0..len).map(|i| pat[i % pat.len()]).collect();
+        run_seq(a, comp, &seq, rep);
+    });
+}
+
+/// all patterns of exactly this period
+pub fn periodic_exact(a: &Auto, comp: &str, period: usize, len: usize, rep: &Report) {
+    let n = a.alphabet.len();
+    let total = n.pow(period as u32);
+    par_for(total, |v| {
+        let mut x = v;
+        let mut pat = Vec::with_capacity(period);
+        for _ in 0..period {
+            pat.push(x % n);
+            x /= n;
+        }
+        let seq: Vec<usize> = (0..len).map(|i| pat[i % period]).collect();
+        run_seq(a, comp, &seq, rep);
+    });
+}
+
 /// event table: from every (sampled) table state, every ordered pair of inputs
 pub fn event(a: &Auto, stride: usize, rep: &Report) {
+    // long periodic event streams of period 1 and 2 over the whole alphabet
+    periodic(a, "event", if stride == 1 { 2 } else { 1 }, if stride == 1 { 70_000 } else { 3_000 }, usize::MAX, rep);
     let acc = access_paths(a);
     let n = a.alphabet.len();
     par_for(a.next.len(), |s| {
@@ -263,6 +309,10 @@ fn dfs<S: ScancodeSet + Clone>(
 }
 
 pub fn scan(a: &Auto, comp: &str, depth: usize, rep: &Report) {
+    // long periodic byte streams (period 1 and 2 over all 256 bytes; 70 000 bytes each in the
+    // thorough tier) through the generic walker
+    periodic(a, comp, 1, if depth >= 4 { 70_000 } else { 2_000 }, usize::MAX, rep);
+    periodic_exact(a, comp, 2, if depth >= 4 { 1_600 } else { 560 }, rep);
     let keys: HashMap<String, u32> =
         crate::keys::ALL_KEYS.iter().map(|k| (crate::keys::key_name(*k), *k as u8 as u32)).collect();
     let codes: Vec<Vec<u32>> = a.out.iter().map(|r| r.iter().map(|v| code_of_value(v, &keys)).collect()).collect();
